@@ -1299,6 +1299,71 @@ impl<RW: QueueRW<T>, T> Stream for &FutInnerRecv<RW, T> {""")]),
             reader: rx,""", """    pub fn add_stream(&self) -> FutInnerRecv<RW, T> {
         FutInnerRecv {
             reader: InnerRecv::add_stream(&self.reader),""")], kind='refactor'),
+    V('yielding-wait-slot-only-in-yield-phase', 'C07', ['P7i'], [E('src/wait.rs', """            yield_now();
+            // checked after every yield, so the wait also ends when spins_yield is 0
+            if check(seq, w_pos, wc) {
+                return;
+            }
+            for _ in 0..self.spins_yield {
+                if check(seq, w_pos, wc) {
+                    return;
+                }
+            }""", """            yield_now();
+            // only the slot itself is polled between two yields
+            let raw = w_pos.load(Relaxed);
+            if !is_tagged(raw) && (seq == rm_tag(raw) || past(seq, rm_tag(raw)).1) {
+                return;
+            }
+            for _ in 0..self.spins_yield {
+                let raw = w_pos.load(Relaxed);
+                if !is_tagged(raw) && (seq == rm_tag(raw) || past(seq, rm_tag(raw)).1) {
+                    return;
+                }
+            }""")]),
+    V('fut-unsubscribe-early-silent', 'C11', ['P11i'], [E(MQ, """    /// Identical to InnerRecv::unsubscribe()
+    pub fn unsubscribe(self) -> bool {
+        self.reader.reader.get_consumers() == 1
+    }
+}
+
+/// This struct acts as a UniInnerRecv""", """    /// Identical to InnerRecv::unsubscribe()
+    pub fn unsubscribe(mut self) -> bool {
+        let last = self.reader.is_single();
+        unsafe { self.reader.do_unsubscribe_with(|| ()) }
+        last
+    }
+}
+
+/// This struct acts as a UniInnerRecv""")]),
+    V('rf-fut-unsubscribe-early-notifying', None, [], [E(MQ, """    /// Identical to InnerRecv::unsubscribe()
+    pub fn unsubscribe(self) -> bool {
+        self.reader.reader.get_consumers() == 1
+    }
+}
+
+/// This struct acts as a UniInnerRecv""", """    /// Identical to InnerRecv::unsubscribe()
+    pub fn unsubscribe(mut self) -> bool {
+        let last = self.reader.reader.get_consumers() == 1;
+        let prod_wait = self.prod_wait.clone();
+        unsafe { self.reader.do_unsubscribe_with(|| prod_wait.notify()) }
+        last
+    }
+}
+
+/// This struct acts as a UniInnerRecv""")], kind='refactor'),
+    V('fut-unsubscribe-double-decrement', 'C01', ['W7', 'P9f'], [E(MQ, """    /// Identical to InnerRecv::unsubscribe()
+    pub fn unsubscribe(self) -> bool {
+        self.reader.reader.get_consumers() == 1
+    }
+}
+
+/// This struct acts as a UniInnerRecv""", """    /// Identical to InnerRecv::unsubscribe()
+    pub fn unsubscribe(self) -> bool {
+        self.reader.reader.remove_consumer() == 1
+    }
+}
+
+/// This struct acts as a UniInnerRecv""")]),
 ]
 
 # behaviour-preserving patches written by independent sub-agents (tools/eval_refactors.sh, DESIGN 12.9): every check
